@@ -235,6 +235,10 @@ def mirror_extend_low_side(array: jax.Array, axis: int, parity: int, on_plane: b
     """
     if not on_plane:
         return parity * jnp.flip(array, axis=axis)
+    if array.shape[axis] < 2:
+        # A single kept sample is the plane sample itself (its own mirror), so there is no mirror image
+        # to flip; the one reconstructed cell repeats its neighbour, which is that sample.
+        return array
     mirrored = parity * jnp.flip(_slice_axis(array, axis, 1), axis=axis)
     return jnp.concatenate([_slice_axis(mirrored, axis, 0, 1), mirrored], axis=axis)
 
